@@ -147,9 +147,11 @@ func rootsFor(prop, tier string) []Root {
 			}
 		}
 		// Stream-level half: write-back of the position, the next attempt's dump request, exactly-once over attempts
-		rs = append(rs, Root{Prop: prop, Harness: "VH_C07_Attempts", Params: []int{1}, MaxDecs: 6000, MaxSteps: 30000000})
+		rs = append(rs, Root{Prop: prop, Harness: "VH_C07_Attempts", Params: []int{1, 0}, MaxDecs: 6000, MaxSteps: 30000000})
+		// pacing "master far ahead" (the whole log sits in the connection's buffer): library-priority schedules
+		rs = append(rs, Root{Prop: prop, Harness: "VH_C07_Attempts", Params: []int{1, 1}, MaxDecs: 6000, MaxSteps: 30000000, LibPrio: true})
 		if thorough {
-			rs = append(rs, Root{Prop: prop, Harness: "VH_C07_Attempts", Params: []int{2}, MaxDecs: 8000, MaxSteps: 60000000})
+			rs = append(rs, Root{Prop: prop, Harness: "VH_C07_Attempts", Params: []int{2, 0}, MaxDecs: 8000, MaxSteps: 60000000})
 		}
 	case "C03":
 		add("VH_C03_RealOffsets")
@@ -166,6 +168,9 @@ func rootsFor(prop, tier string) []Root {
 	case "C05", "C06":
 		// a master error whose message is long enough to look like any fixed text
 		rs = append(rs, Root{Prop: prop, Harness: "VH_C05_Stream", Params: []int{2, 0, 0, 2}, MaxDecs: 4000, MaxSteps: 30000000})
+		// a STOP_EVENT earlier in the stream, then a master error / a lost connection
+		rs = append(rs, Root{Prop: prop, Harness: "VH_C05_Stream", Params: []int{2, 1, 0, 3}, MaxDecs: 4000, MaxSteps: 30000000})
+		rs = append(rs, Root{Prop: prop, Harness: "VH_C05_Stream", Params: []int{3, 1, 0, 3}, MaxDecs: 4000, MaxSteps: 30000000})
 		npk := []int{0, 1, 2}
 		for cause := 0; cause < 11; cause++ {
 			for _, n := range npk {
@@ -191,9 +196,11 @@ func rootsFor(prop, tier string) []Root {
 		for _, nl := range []int{0, 1, 10} {
 			rs = append(rs, Root{Prop: prop, Harness: "VH_C07_Handshake", Params: []int{nl}, MaxDecs: 4000})
 		}
-		rs = append(rs, Root{Prop: prop, Harness: "VH_C07_Attempts", Params: []int{1}, MaxDecs: 6000, MaxSteps: 30000000})
+		rs = append(rs, Root{Prop: prop, Harness: "VH_C07_Attempts", Params: []int{1, 0}, MaxDecs: 6000, MaxSteps: 30000000})
+		// pacing "master far ahead" (the whole log sits in the connection's buffer): library-priority schedules
+		rs = append(rs, Root{Prop: prop, Harness: "VH_C07_Attempts", Params: []int{1, 1}, MaxDecs: 6000, MaxSteps: 30000000, LibPrio: true})
 		if thorough {
-			rs = append(rs, Root{Prop: prop, Harness: "VH_C07_Attempts", Params: []int{2}, MaxDecs: 8000, MaxSteps: 60000000})
+			rs = append(rs, Root{Prop: prop, Harness: "VH_C07_Attempts", Params: []int{2, 0}, MaxDecs: 8000, MaxSteps: 60000000})
 		}
 	case "C08":
 		for _, p := range [][2]int{{20, 20}, {32, 8}, {8, 32}} {
@@ -217,6 +224,7 @@ func rootsFor(prop, tier string) []Root {
 		for _, st := range []int{2, 5} {
 			rs = append(rs, Root{Prop: prop, Harness: "VH_C08_Update", Params: []int{st}, MaxDecs: 4000})
 		}
+		add("VH_C08_Absent")
 		if thorough {
 			rs = append(rs, Root{Prop: prop, Harness: "VH_C08_Update", Params: []int{3}, MaxDecs: 4000})
 		}
@@ -251,6 +259,9 @@ func rootsFor(prop, tier string) []Root {
 				}
 			}
 		}
+		// 300 columns: UPDATE v2 and WRITE v1
+		rs = append(rs, Root{Prop: prop, Harness: "VH_C09_Rows", Params: []int{1, 2, 6, 6, 0}, MaxDecs: 8000, MaxSteps: 60000000})
+		rs = append(rs, Root{Prop: prop, Harness: "VH_C09_Rows", Params: []int{0, 1, 6, 6, 0}, MaxDecs: 8000, MaxSteps: 60000000})
 		if !thorough {
 			rs = append(rs, Root{Prop: prop, Harness: "VH_C09_Rows", Params: []int{1, 2, 6, 1, 3}, MaxDecs: 4000})
 			rs = append(rs, Root{Prop: prop, Harness: "VH_C09_Rows", Params: []int{0, 2, 6, 2, 0}, MaxDecs: 4000})
@@ -292,6 +303,8 @@ func rootsFor(prop, tier string) []Root {
 		// documents beyond 64 KB: only the large format can hold them (array element / object member of 70,000 bytes)
 		rs = append(rs, Root{Prop: prop, Harness: "VH_C14_LongString", Params: []int{70000, 1, 1}, MaxDecs: 40000, MaxSteps: 2000000000})
 		rs = append(rs, Root{Prop: prop, Harness: "VH_C14_LongString", Params: []int{70000, 2, 1}, MaxDecs: 40000, MaxSteps: 2000000000})
+		rs = append(rs, Root{Prop: prop, Harness: "VH_C14_LongString", Params: []int{70000, 3, 1}, MaxDecs: 40000, MaxSteps: 2000000000})
+		rs = append(rs, Root{Prop: prop, Harness: "VH_C14_LongString", Params: []int{300, 3, 0}, MaxDecs: 40000, MaxSteps: 200000000})
 		if thorough {
 			for _, n := range []int{255, 384, 16383, 16384} {
 				rs = append(rs, Root{Prop: prop, Harness: "VH_C14_LongString", Params: []int{n, 2, 0}, MaxDecs: 40000, MaxSteps: 400000000})
@@ -320,6 +333,10 @@ func rootsFor(prop, tier string) []Root {
 			add("VH_C15_TableMap", w, 2, 0, 1, 3)
 			add("VH_C15_TableMap", w, 1, 255, 255, 8)
 			for _, n := range []int{250, 251, 252, 256, 300} {
+				add("VH_C15_TableMapWide", w, n)
+			}
+			// metadata blocks of 250, 252 and 280 bytes (125, 126, 140 VARCHAR columns)
+			for _, n := range []int{1125, 1126, 1140} {
 				add("VH_C15_TableMapWide", w, n)
 			}
 			if thorough {
@@ -354,6 +371,9 @@ func rootsFor(prop, tier string) []Root {
 						add("VH_C16_Query", dl, sl, cs, fl)
 					}
 				}
+				if !thorough {
+					add("VH_C16_Query", 255, 5, cs, fl) // the longest database name
+				}
 			}
 			add("VH_C16_IntVarRand", 0, cs)
 			add("VH_C16_IntVarRand", 1, cs)
@@ -378,6 +398,9 @@ func rootsFor(prop, tier string) []Root {
 					add("VH_C18_Contains", a, b, ex)
 				}
 				for ex := 0; ex < 4; ex++ {
+					if a+b > 5 {
+						continue // Equal(3,3,*): z3 and cvc5 answer unknown within 120 s (measured), not registered
+					}
 					add("VH_C18_Equal", a, b, ex)
 				}
 			}
@@ -432,7 +455,7 @@ func rootsFor(prop, tier string) []Root {
 			add("VH_C19_MariaContains", n)
 		}
 	case "C20":
-		for sh := 0; sh < 6; sh++ {
+		for sh := 0; sh < 7; sh++ {
 			rs = append(rs, Root{Prop: prop, Harness: "VH_C20_Marshal", Params: []int{sh}, MaxDecs: 4000})
 		}
 		add("VH_C20_Names")
